@@ -236,6 +236,28 @@ def run(ctx):
         elif docs_of(res) != want2:
             ctx.violate("roundtrip", "package-differs-after-mutation", dict(_pkg_diff(want2, docs_of(res)), mutation=what))
         want = want2
+    # one configuration object used, changed, and used again (configurations are plain mutable records)
+    if ch.coin(1, 4, "reuse-config-object-after-changing-it"):
+        ctx.checked("config-reuse")
+        lv2 = ch.pick([x for x in ZSTD_LEVELS if (x is None) != (level is None)], "zstd-2")
+        cfg_r = EnvelopeConfig(format=EnvelopeFormat.JSON, zstd=level)
+        pkg.to_bytes(cfg_r)
+        cfg_r.zstd = lv2
+        ctx.ev("writer", "cfg.zstd = ...; to_bytes(cfg)", {"from": level, "to": lv2})
+        ctx.probe("config_object_changed_between_uses")
+        try:
+            d2 = pkg.to_bytes(cfg_r)
+        except Exception as e:  # noqa: BLE001
+            d2 = None
+            ctx.violate("encode", f"to_bytes-raised-after-config-change:{type(e).__name__}", {"zstd": lv2})
+        if d2 is not None:
+            if len(d2) < 10 or (d2[9] & 1) != (1 if lv2 is not None else 0):
+                ctx.violate("header", "compression-flag-after-config-change", {"flags": d2[9] if len(d2) > 9 else None, "zstd": lv2})
+            kind, res = decode(d2)
+            if kind != "ok":
+                ctx.violate("roundtrip", f"from_bytes-raised-after-config-change:{kind}", {"zstd": lv2, "msg": str(res)})
+            elif docs_of(res) != want:
+                ctx.violate("roundtrip", "package-differs-after-config-change", {"zstd": lv2})
     # text form
     ctx.checked("text")
     try:
